@@ -20,7 +20,7 @@ Second stratum (threaded engine): the PersistentProcessRunner again, this time
 with its workers as simulated *processes* running the real
 `persistent_process_main` on the SQLite stack (own Pynenc object, own
 connections); workers are SIGKILLed in seeded bursts while work is queued.  Same
-oracle one virtual second (ten parent loop iterations) after the last death.
+oracle three complete parent loop iterations after the last death.
 """
 
 from __future__ import annotations
@@ -158,6 +158,14 @@ def _run_live(seed: int, replay: dict | None) -> dict:
 
         papp.orchestrator.register_runner_heartbeats = hb
         out: dict[str, Any] = {}
+        iters = {"n": 0}
+        orig_iter = parent.runner_loop_iteration
+
+        def counted_iteration() -> None:
+            orig_iter()
+            iters["n"] += 1
+
+        parent.runner_loop_iteration = counted_iteration  # type: ignore[method-assign]
 
         def client() -> None:
             t = d.task("c", "prog")
@@ -176,8 +184,13 @@ def _run_live(seed: int, replay: dict | None) -> dict:
                 sim.bump("probe.death_burst")
                 if k == len(alive):
                     sim.bump("probe.all_workers_died")
-            # quiet period: the parent loop must restore the pool (a few iterations), then the work must finish
-            sim.sleep(1.0)
+            # quiet period: three complete iterations of the parent's loop after the last death (counted, not timed:
+            # an iteration that also runs the global services can take more than a virtual second), then the work must finish
+            target = iters["n"] + 4  # the iteration under way at the last death may have looked at the pool before it
+            t_lim = sim.now + 60.0
+            while iters["n"] < target and sim.now < t_lim:
+                sim.sleep(0.1)
+            out["iterations_waited"] = iters["n"] >= target
             out["alive_after_quiet"] = sum(1 for p in parent.child_runner_ids.values() if p.is_alive())
             out["dead_tracked"] = sum(1 for p in parent.child_runner_ids.values() if not p.is_alive())
             out["final"] = d.wait_final("c", ids, timeout=90.0, poll=0.5)
@@ -191,13 +204,13 @@ def _run_live(seed: int, replay: dict | None) -> dict:
         if len(d.worker_procs) > n_workers:
             st["probe.respawned"] = len(d.worker_procs) - n_workers
         desc = f"PPR workers={n_workers} bursts={bursts} killed={killed}"
-        if "final" not in out or d.pool_exhausted:
+        if "final" not in out or d.pool_exhausted or not out.get("iterations_waited"):
             common["inconclusive"] = True
         else:
             if out["dead_tracked"]:
-                viol.append({"signature": "C14/PPR-live/dead-workers-still-tracked", "message": f"{out['dead_tracked']} dead worker(s) still tracked one virtual second after the last death; {desc}"})
+                viol.append({"signature": "C14/PPR-live/dead-workers-still-tracked", "message": f"{out['dead_tracked']} dead worker(s) still tracked three parent loop iterations after the last death; {desc}"})
             if out["alive_after_quiet"] != n_workers:
-                viol.append({"signature": "C14/PPR-live/pool-below-capacity", "message": f"{out['alive_after_quiet']} live workers one virtual second (10 loop iterations) after the last death, configured {n_workers}; {desc}"})
+                viol.append({"signature": "C14/PPR-live/pool-below-capacity", "message": f"{out['alive_after_quiet']} live workers three parent loop iterations after the last death, configured {n_workers}; {desc}"})
             if hb_bad:
                 viol.append({"signature": "C14/PPR-live/heartbeat-for-dead-worker", "message": f"heartbeats were reported for dead workers {sorted(set(hb_bad))[:3]}; {desc}"})
             if not out["final"]:
